@@ -391,7 +391,15 @@ func (l *c10list) probeStale(ci int, cu *c10cur) {
 		case "Push":
 			cu.c.Push(-6)
 		case "Add":
-			cu.c.Add(-7)
+			// one, two or three values: the variadic paths differ
+			switch (l.stale/len(c10staleMethods) + ci) % 3 {
+			case 0:
+				cu.c.Add(-7)
+			case 1:
+				cu.c.Add(-7, -8)
+			default:
+				cu.c.Add(-7, -8, -9)
+			}
 		case "Remove":
 			cu.c.Remove()
 		case "Truncate":
